@@ -317,7 +317,10 @@ def pack(bs):
 
 def evaluate(ctx, binp, cases, tag, shard=None):
     """implementation + Coq. returns (by_id, M, V, NT ids)"""
-    rc, res, raw = vlib.run_json(binp, {"cases": [to_driver(c, i) for i, c in enumerate(cases)]}, timeout=1800)
+    # the whole batch takes a few seconds; a driver that hangs (only possible on a changed tree) is reported after
+    # this generous limit as "correspondence could not run"
+    rc, res, raw = vlib.run_json(binp, {"cases": [to_driver(c, i) for i, c in enumerate(cases)]},
+                                 timeout=max(120, len(cases) // 50))
     if res is None:
         raise vlib.GoBuildError("./cmd/c19 (run)", raw[-3000:])
     outs = res["outs"]
@@ -329,8 +332,17 @@ def evaluate(ctx, binp, cases, tag, shard=None):
                                  "fieldstr")}
         by_id[i] = {"case": c, "tag_text": bytes.fromhex(c["tag"]).decode("latin1"), "observed": obs}
         terms.append(pack(serialise(c, o)))
+    # canary: a deliberately falsified observation (value part of ",x=1" reported as "!") must come back as a
+    # mismatch AND a violation; otherwise the evaluation pipeline itself (serialiser, decoder, summary) is broken
+    canary_c = mk_case("parse", b",x=1", {"value": b"", "args": [(b"x", [b"1"])]}, [], "canary")
+    canary_o = {"panic": "", "nprops": 1, "tagval": b"!".hex(), "tagstr": b"!".hex(), "args": [{"k": b"X".hex(), "v": [b"1".hex()]}],
+                "required": True, "probes": [], "failed": False, "fieldnil": False, "fieldstr": ""}
+    cid = len(terms)
+    terms.append(pack(serialise(canary_c, canary_o)))
     M, V, NT = coq_eval_local(ctx, "cases_c19_" + tag, terms, shard)
-    return by_id, M, V, NT
+    if cid not in M or cid not in V:
+        raise vlib.CoqEvalError("cases_c19_" + tag, "canary case was not reported (M=%s V=%s)" % (cid in M, cid in V))
+    return by_id, [i for i in M if i != cid], [i for i in V if i != cid], [i for i in NT if i != cid]
 
 
 def coq_eval_local(ctx, basename, blobs, shard=None):
